@@ -186,6 +186,8 @@ func main() {
 	r.Floor("programs.failing", 10)
 	r.Floor("tamper.variants", 300)
 	r.Floor("tamper.must-reject", 150)
+	r.Floor("tamper.underpaid", 3)
+	r.Floor("tamper.underpaid-multi-request", 1)
 	r.Floor("tamper.program-variants", 1000)
 	r.Floor("preexec.no-trace-checked", 100)
 	r.Assume("kernel contracts share sandbox, bridge, verification and commit paths with user contracts but not the VM-specific syscall marshalling (wasm / native / EVM are not runnable offline)")
@@ -456,32 +458,47 @@ func (e *env) tamper() {
 					map[string]string{"item": it.Name, "path": m.Path, "kind": m.Kind})
 			}
 		}
-		// under-paying: fee output below the gas the execution uses (only for the item that pays gas)
+		// under-paying: fee output below the gas the execution uses (the items whose fee is exactly
+		// the gas pre-execution reported): one unit short, and - decisive when a transaction carries
+		// several charged requests - half of it, which still covers every single request
 		for i, o := range it.Tx.TxOutputs {
-			if string(o.ToAddr) != "$" || it.Name != "contract" {
+			if string(o.ToAddr) != "$" || (it.Name != "contract" && it.Name != "contract-two-requests") {
 				continue
 			}
-			y := sn.CloneTx(it.Tx)
 			fee := new(big.Int).SetBytes(o.Amount)
-			if fee.Sign() <= 1 {
+			if fee.Sign() <= 0 || fee.Cmp(big.NewInt(1)) <= 0 {
 				continue
 			}
-			// move one unit of the fee to the change output
-			y.TxOutputs[i].Amount = new(big.Int).Sub(fee, big.NewInt(1)).Bytes()
-			for j, c := range y.TxOutputs {
-				if j != i && string(c.ToAddr) == it.Tx.Initiator {
-					c.Amount = new(big.Int).Add(new(big.Int).SetBytes(c.Amount), big.NewInt(1)).Bytes()
-					z, err := it.Resign(y)
-					if err == nil {
-						ok, verr := n.State.VerifyTx(z)
-						r.Count("tamper.variants", 1)
-						r.Count("tamper.must-reject", 1)
-						r.Case("tamper|"+it.Name+"|fee-minus-one", true)
-						if ok && verr == nil {
-							r.Violation("tamper-accepted|pays-less-than-the-execution-uses", "a transaction whose fee output is one below the gas its execution uses still verifies", nil)
+			shorts := map[string]*big.Int{"fee-minus-one": big.NewInt(1)}
+			if len(it.Tx.ContractRequests) > 1 {
+				half := new(big.Int).Div(fee, big.NewInt(int64(len(it.Tx.ContractRequests))))
+				shorts["fee-covers-one-request-only"] = new(big.Int).Sub(fee, half)                       // pays fee/n
+				shorts["fee-covers-all-but-one-unit-of-a-request"] = new(big.Int).Sub(half, big.NewInt(0)) // pays fee - fee/n
+				r.Count("tamper.underpaid-multi-request", 1)
+			}
+			for name, short := range shorts {
+				if short.Sign() <= 0 || short.Cmp(fee) >= 0 {
+					continue
+				}
+				y := sn.CloneTx(it.Tx)
+				// move the shortfall from the fee to the change output
+				y.TxOutputs[i].Amount = new(big.Int).Sub(fee, short).Bytes()
+				for j, c := range y.TxOutputs {
+					if j != i && string(c.ToAddr) == it.Tx.Initiator {
+						c.Amount = new(big.Int).Add(new(big.Int).SetBytes(c.Amount), short).Bytes()
+						z, err := it.Resign(y)
+						if err == nil {
+							ok, verr := n.State.VerifyTx(z)
+							r.Count("tamper.variants", 1)
+							r.Count("tamper.must-reject", 1)
+							r.Count("tamper.underpaid", 1)
+							r.Case("tamper|"+it.Name+"|"+name, true)
+							if ok && verr == nil {
+								r.Violation("tamper-accepted|pays-less-than-the-execution-uses|"+name, fmt.Sprintf("transaction %s (%d charged requests, execution uses %s) whose fee output is %s short still verifies", it.Name, len(it.Tx.ContractRequests), fee, short), nil)
+							}
 						}
+						break
 					}
-					break
 				}
 			}
 		}
